@@ -245,7 +245,7 @@ theorem nodeCont_getD (o : Option Node) :
   | none => rfl
   | some n => cases n <;> rfl
 
-theorem setSlot_cons (o : Option Node) (i : Nat) (is : List Nat) (v : Node) :
+theorem setSlot_consA (o : Option Node) (i : Nat) (is : List Nat) (v : Node) :
     setSlot o (i :: is) v = .list ((padTo (nodeList (o.getD Node.null)) (i + 1)).set i
       (setSlot (padTo (nodeList (o.getD Node.null)) (i + 1))[i]? is v)) := by
   cases o with
@@ -256,7 +256,7 @@ theorem setSlot_eq_actA (m : AP) (v : Node) (hm : ∀ n, actA m n = v) : ∀ (is
     setSlot o is v = actA (wrapIdx is m) (o.getD Node.null)
   | [], _ => (hm _).symm
   | i :: is, o => by
-    rw [setSlot_cons, setSlot_eq_actA m v hm is]
+    rw [setSlot_consA, setSlot_eq_actA m v hm is]
     simp only [wrapIdx, List.foldr_cons, actA]
     rw [← List.getD_eq_getElem?_getD, getD_padTo]
 
